@@ -85,7 +85,7 @@ def fuzz_native(ctx, scratch):
         crash = fh.read()[:2000]
       break
     summary = [l for l in out.splitlines() if 'ERROR' in l or 'SUMMARY' in l or 'runtime error' in l][:5]
-    ctx.violation(None, 'the C++ parser aborts / a sanitizer reports on a byte-level input (libFuzzer): %s' % ' | '.join(summary)[:400],
+    ctx.violation(classify_native_report(crash or b'', out), 'the C++ parser aborts / a sanitizer reports on a byte-level input (libFuzzer): %s' % ' | '.join(summary)[:400],
                   {'kind': 'fuzz', 'input_repr': repr(crash), 'report': out[-3000:]})
 
 
@@ -269,6 +269,24 @@ def classify(text, verdict, detail):
     if re.search(r'[A-Za-z_0-9]\[\s*\]', text) and 'Could not parse expression of a value' in detail:
       return 'C06/cpp-accepts-empty-subscript'
   return None
+
+
+def classify_native_report(text, report):
+  """Recorded mechanism: the C++ parser accepts an empty subscript `x[]` and builds a node without a value; the
+  sanitizer build then reports undefined behaviour in std::variant when that node is visited."""
+  import re
+  if isinstance(text, bytes):
+    text = text.decode('utf-8', 'replace')
+  if re.search(r'[A-Za-z_0-9]\[\s*\]', text or '') and 'variant' in (report or '') and ('unreachable' in report or 'undefined-behavior' in report):
+    return 'C06/cpp-accepts-empty-subscript'
+  return None
+
+
+def classify_abort(case, stderr):
+  text = case.get('text') if isinstance(case, dict) else None
+  if text is None and isinstance(case, dict):
+    text = case.get('base') or case.get('program') or ''
+  return classify_native_report(text or '', stderr or '')
 
 
 def finalize(agg, tier):
